@@ -335,7 +335,15 @@ func TestLossyValuePull(t *testing.T) {
 			}
 			val := fmsg(next)
 			t0 := time.Now()
-			err, returned := guarded(func() error { _, err := v.Set(val); return err })
+			var wopts []resource.WriteOption
+			at := ""
+			if rapid.IntRange(0, 2).Draw(t, "writeTime") == 1 {
+				// caller-chosen write times need not move forward: which value is the latest is decided by the order of the writes
+				sec := int64(1000 + rapid.IntRange(-500, 500).Draw(t, "at"))
+				wopts = append(wopts, resource.WithWriteTime(time.Unix(sec, 0)))
+				at = fmt.Sprintf("@%d", sec)
+			}
+			err, returned := guarded(func() error { _, err := v.Set(val, wopts...); return err })
 			if !returned || time.Since(t0) > guard-time.Second {
 				t.Fatalf("Set took %v (returned=%v) while a lossy subscriber was not receiving\nhistory: %s", time.Since(t0), returned, strings.Join(hist, " "))
 			}
@@ -343,7 +351,7 @@ func TestLossyValuePull(t *testing.T) {
 				t.Fatalf("Set: %v", err)
 			}
 			cur = next
-			hist = append(hist, fmt.Sprintf("set(%d)", next))
+			hist = append(hist, fmt.Sprintf("set(%d)%s", next, at))
 			next++
 			burst++
 			if burst > maxBurst {
@@ -468,6 +476,7 @@ func TestBackpressureSendTimeout(t *testing.T) {
 				}
 				lib.Ev.Class("api:send timeout observed")
 				lib.Ev.Case("send-timeout", func() any { return fmt.Sprintf("stalled backpressured consumer: write %d returned %q after %v", i+1, r.err, r.d) })
+				afterTimeout(t, v, ch)
 				return
 			}
 		case <-deadline:
@@ -475,4 +484,46 @@ func TestBackpressureSendTimeout(t *testing.T) {
 		}
 	}
 	t.Fatalf("three writes completed although the backpressured consumer stopped receiving after the seed")
+}
+
+// afterTimeout: the consumer that caused a send timeout comes back and keeps receiving from then on, slowly but
+// steadily (a quarter of a second per event - well inside the five second budget every write has). One timeout in
+// the past changes nothing about the contract: every later write waits for delivery, succeeds, and is delivered in order.
+func afterTimeout(t *testing.T, v *resource.Value, ch <-chan *resource.ValueChange) {
+	got := make(chan int32, 16)
+	go func() {
+		for {
+			time.Sleep(250 * time.Millisecond) // busy with something else between receives
+			e, ok := <-ch
+			if !ok {
+				return
+			}
+			got <- e.Value.(*testproto.ForeignMessage).C
+		}
+	}()
+	// whatever was in flight before (the write absorbed by the forwarding goroutine) drains first
+	var want []int32
+	for i := int32(10); i < 14; i++ {
+		t0 := time.Now()
+		if _, err := v.Set(fmsg(i)); err != nil {
+			t.Fatalf("after an earlier send timeout, with the consumer receiving again (one event per 250ms): Set(%d) failed after %v: %v", i, time.Since(t0), err)
+		}
+		want = append(want, i)
+	}
+	var seen []int32
+	deadline := time.After(20 * time.Second)
+	for len(seen) < len(want) {
+		select {
+		case c := <-got:
+			if c >= 10 {
+				seen = append(seen, c)
+			}
+		case <-deadline:
+			t.Fatalf("after an earlier send timeout the consumer received %v of the later writes %v", seen, want)
+		}
+	}
+	if fmt.Sprint(seen) != fmt.Sprint(want) {
+		t.Fatalf("after an earlier send timeout the consumer received %v, want %v", seen, want)
+	}
+	lib.Ev.Class("api:writes after a send timeout, consumer slow but receiving")
 }
